@@ -10,6 +10,7 @@ package c11
 import (
 	"context"
 	"fmt"
+	"os"
 	"sort"
 	"strings"
 	"testing"
@@ -890,15 +891,25 @@ func trueSizeScenarios(capacity int) []hx.Scenario {
 }
 
 func scenarios(t *testing.T) []hx.Scenario {
-	switch c := probeCap(); c {
-	case 2:
+	// The part is declared by the generated copy (part_<name>.go.txt, added
+	// through the overlay); the measured capacity is only reported: a tree in
+	// which the buffering behaves differently (another size, deliveries that
+	// never wait) is explored with the declared family rather than refused.
+	c := probeCap()
+	switch broadcaster.McPart {
+	case "scaled":
+		if c != 2 {
+			fmt.Fprintf(os.Stderr, "note: part scaled: measured per-subscriber capacity %d, expected 2\n", c)
+		}
 		// the cheap churn family first: a part that runs out of budget skips the tail
 		return append(churnScenarios(), scaledScenarios()...)
-	case 10:
-		return trueSizeScenarios(c)
-	default:
-		t.Fatalf("instrumented broadcaster has a per-subscriber buffer of %d; the harness expects 2 (scaled part) or 10 (true size)", c)
+	case "truesize":
+		if c != 10 {
+			fmt.Fprintf(os.Stderr, "note: part truesize: measured per-subscriber capacity %d, expected 10\n", c)
+		}
+		return trueSizeScenarios(10)
 	}
+	t.Fatalf("unknown part %q", broadcaster.McPart)
 	return nil
 }
 
